@@ -680,6 +680,9 @@ Proof.
     cbn. f_equal. rewrite (IH _ _ _ E2). rewrite app_length. cbn. f_equal. lia.
 Qed.
 
+Lemma Forall2_len {A B} (P : A -> B -> Prop) l1 l2 : Forall2 P l1 l2 -> length l1 = length l2.
+Proof. induction 1; cbn; congruence. Qed.
+
 Lemma sim_decl x j ct cenv et eenv ctgt etgt fenv tensor var sh data ct' cs et' es :
   Inv x j ct cenv et eenv ctgt etgt fenv ->
   cstep ops (ct, cenv) (ODecl tensor var sh data) = Some (Ok (ct', cs)) ->
@@ -698,6 +701,25 @@ Proof.
     rewrite fold_vars_e. destruct (vars_e et data) as [t2 rs] eqn:Ee. cbn [app].
     intros E; inversion E; subst et' es; clear E.
     set (n := length data) in *.
+    assert (NS : (length cenv <> x \/ n <= j) ->
+      exists fs ctgt' etgt', Inv x j (append_nullary_repeating ops ct n)
+           (cenv ++ [mkCont tensor sh (combine data (incrementing_indexes (length ct) n)) (Some 0)])
+           t2 (eenv ++ [mkECont tensor sh rs]) ctgt' etgt' (fenv ++ fs) /\
+        (Seeded x j cenv eenv ctgt etgt -> ctgt' = ctgt /\ etgt' = etgt) /\
+        (true = true -> length cenv = x -> j < n ->
+         Seeded x j (cenv ++ [mkCont tensor sh (combine data (incrementing_indexes (length ct) n)) (Some 0)])
+           (eenv ++ [mkECont tensor sh rs]) ctgt' etgt')).
+    { intros Hns.
+      assert (Hl : length (repeat rO n) = length data) by apply repeat_length.
+      destruct (vars_c_ok 0 data (repeat rO n) ct (S_ ct ctgt) G1 Hl) as (G1' & M1 & N1).
+      destruct (vars_e_ok data (repeat rO n) et (S_ et etgt) t2 rs G2 Hl Ee) as (G2' & M2 & N2).
+      fold n in G1', M1, N1.
+      exists [combine data (repeat rO n)], ctgt, etgt. split; [|split; [auto|intros; lia]].
+      apply (Inv_op _ _ _ _ _ _ _ _ _ _ _ _ _ _ _ _ I
+               (conj (ex_intro _ n eq_refl) (conj G1' M1)) (conj (ex_intro _ n eq_refl) (conj G2' M2))).
+      - constructor; [|constructor]. exact N1.
+      - constructor; [|constructor]. exact N2.
+      - constructor; [|constructor]. split; reflexivity. }
     destruct (Nat.eq_dec (length cenv) x) as [Hx|Hx]; [destruct (Nat.lt_ge_cases j n) as [Hj|Hj]|].
     + (* the seeded declaration *)
       destruct (Z1 ltac:(lia)) as [-> ->].
@@ -714,12 +736,13 @@ Proof.
                      (eenv ++ [mkECont tensor sh rs]) (Some (length ct + j)) (Some (length et + j))).
       { eexists _, _, (length ct + j), (length et + j).
         split; [rewrite nth_error_app2 by lia; rewrite <- Hx, Nat.sub_diag; reflexivity|].
-        split; [rewrite nth_error_app2 by (rewrite <- (Forall2_length L); lia);
-                rewrite <- (Forall2_length L), <- Hx, Nat.sub_diag; reflexivity|].
+        split; [rewrite nth_error_app2 by (rewrite <- (Forall2_len _ _ _ L); lia);
+                rewrite <- (Forall2_len _ _ _ L), <- Hx, Nat.sub_diag; reflexivity|].
         cbn [c_data e_recs]. unfold incrementing_indexes.
         rewrite map_snd_combine by (rewrite seq_length; reflexivity).
         rewrite (vars_e_idx _ _ _ _ Ee). fold n. rewrite !nth_error_seq by exact Hj. auto. }
-      split; [|split; [intros (c0 & e0 & p0 & q0 & Hc0 & _); apply nth_error_Some_lt in Hc0; lia|intros _ _ _; exact SD]].
+      split; [|split; [intros (c0 & e0 & p0 & q0 & Hc0 & _);
+                        assert (x < length cenv) by (apply nth_error_Some; congruence); lia|intros _ _ _; exact SD]].
       eapply (Inv_push x j ct cenv et eenv None None fenv _ t2 (S_ ct None ++ seg j n) (S_ et None ++ seg j n));
         try eassumption.
       * unfold S_. rewrite L1. apply seeds_of_seg. exact Hj.
@@ -732,8 +755,8 @@ Proof.
       * rewrite app_length. cbn. lia.
       * intros _. right. exact SD.
     + (* declaration of x, but no element j: nothing is seeded *)
-      admit_decl_other.
-    + admit_decl_other.
+      apply NS. right. exact Hj.
+    + apply NS. left. exact Hx.
   - (* constants *)
     intros E; inversion E; subst ct' cs; clear E. intros E; inversion E; subst et' es; clear E.
     exists [map (fun v => (v, rO)) data], ctgt, etgt. split; [|split; [auto|discriminate]].
@@ -745,4 +768,226 @@ Proof.
     + constructor; [|constructor]. split; reflexivity.
 Qed.
 
+
+(* ------------------------------------------------------------------ whole programs *)
+(* operation kinds covered by the simulation proof below *)
+Definition supported (o : cop R) : bool :=
+  match o with
+  | ODecl _ _ _ _ | OUnary _ _ _ _ | OBinary _ _ _ _ => true
+  | _ => false
+  end.
+
+(* environment position x is created by a declaration of variables with more than j elements *)
+Fixpoint is_input (x j k : nat) (prog : list (cop R)) : Prop :=
+  match prog with
+  | [] => False
+  | o :: r =>
+      match o with
+      | ODecl _ true _ data => k = x /\ j < length data
+      | _ => False
+      end \/ is_input x j (k + match o with OFromIters2 _ _ _ => 2 | _ => 1 end) r
+  end.
+
+Lemma sim_step x j ct cenv et eenv ctgt etgt fenv o ct' cs et' es :
+  supported o = true ->
+  Inv x j ct cenv et eenv ctgt etgt fenv ->
+  cstep ops (ct, cenv) o = Some (Ok (ct', cs)) ->
+  estep ops (et, eenv) o = Some (Ok (et', es)) ->
+  exists fs ctgt' etgt', Inv x j ct' (cenv ++ cs) et' (eenv ++ es) ctgt' etgt' (fenv ++ fs) /\
+    (Seeded x j cenv eenv ctgt etgt -> ctgt' = ctgt /\ etgt' = etgt) /\
+    (match o with ODecl _ true _ data => length cenv = x /\ j < length data | _ => False end ->
+     Seeded x j (cenv ++ cs) (eenv ++ es) ctgt' etgt') /\
+    length (cenv ++ cs) = length cenv + match o with OFromIters2 _ _ _ => 2 | _ => 1 end.
+Proof.
+  intros Hs I Hc He. destruct o; try discriminate.
+  - destruct (sim_decl _ _ _ _ _ _ _ _ _ _ _ _ _ _ _ _ _ I Hc He) as (fs & c' & e' & I' & K1 & K2).
+    exists fs, c', e'. split; [exact I'|]. split; [exact K1|]. split.
+    + destruct var; [|contradiction]. intros [Q1 Q2]. apply K2; auto.
+    + revert Hc. cbn [cstep]. destruct (_ || _); [discriminate|]. destruct var.
+      * destruct (c_variables ops ct 0 tensor sh data). intros E; inversion E. rewrite app_length. reflexivity.
+      * intros E; inversion E. rewrite app_length. reflexivity.
+  - destruct (sim_unary _ _ _ _ _ _ _ _ _ _ _ _ _ _ _ _ _ I Hc He) as (fs & I').
+    exists fs, ctgt, etgt. split; [exact I'|]. split; [auto|]. split; [contradiction|].
+    revert Hc. cbn [cstep]. destruct (nth_error cenv a); [|discriminate].
+    destruct (unfn_of ops code c); [|discriminate]. destruct (c_unary ops ct assign u c0).
+    intros E; inversion E. rewrite app_length. reflexivity.
+  - destruct (sim_binary _ _ _ _ _ _ _ _ _ _ _ _ _ _ _ _ _ I Hc He) as (fs & I').
+    exists fs, ctgt, etgt. split; [exact I'|]. split; [auto|]. split; [contradiction|].
+    revert Hc. cbn [cstep]. destruct (nth_error cenv a); [|discriminate].
+    destruct (nth_error cenv b); [|discriminate]. destruct (binfn_of ops code); [|discriminate].
+    destruct (negb _); [discriminate|]. destruct (_ && _); [discriminate|].
+    destruct (c_binop ops ct mode b0 c c0) as [[[? ?]| |]|]; try discriminate.
+    cbn [omap fst snd]. intros E; inversion E. rewrite app_length. reflexivity.
+Qed.
+
+Lemma run_sim x j : forall prog ct cenv et eenv ctgt etgt fenv n n' m m' ct' cenv' et' eenv',
+  forallb supported prog = true ->
+  Inv x j ct cenv et eenv ctgt etgt fenv ->
+  crun ops (ct, cenv) n prog = Some (m, Ok (ct', cenv')) ->
+  erun ops (et, eenv) n' prog = Some (m', Ok (et', eenv')) ->
+  exists ctgt' etgt' fenv', Inv x j ct' cenv' et' eenv' ctgt' etgt' fenv' /\
+    (Seeded x j cenv eenv ctgt etgt \/ is_input x j (length cenv) prog -> Seeded x j cenv' eenv' ctgt' etgt').
+Proof.
+  induction prog as [|o r IH]; intros ct cenv et eenv ctgt etgt fenv n n' m m' ct' cenv' et' eenv' Hs I.
+  - cbn. intros E1 E2. inversion E1; inversion E2; subst. exists ctgt, etgt, fenv. split; [exact I|].
+    intros [H|[]]. exact H.
+  - cbn [forallb] in Hs. apply andb_true_iff in Hs as [Hs1 Hs2]. cbn [crun erun].
+    destruct (cstep ops (ct, cenv) o) as [[[t1 cs]| |]|] eqn:Ec; try discriminate.
+    destruct (estep ops (et, eenv) o) as [[[t2 es]| |]|] eqn:Ee; try discriminate.
+    cbn [snd]. intros R1 R2.
+    destruct (sim_step _ _ _ _ _ _ _ _ _ _ _ _ _ _ Hs1 I Ec Ee) as (fs & c1 & e1 & I1 & K1 & K2 & K3).
+    destruct (IH _ _ _ _ _ _ _ _ _ _ _ _ _ _ _ Hs2 I1 R1 R2) as (c2 & e2 & f2 & I2 & K4).
+    exists c2, e2, f2. split; [exact I2|]. intros H. apply K4. destruct H as [H|H]; [|change (is_input x j (length cenv) (o :: r)) with ((match o with ODecl _ true _ data => length cenv = x /\ j < length data | _ => False end) \/ is_input x j (length cenv + match o with OFromIters2 _ _ _ => 2 | _ => 1 end) r) in H; destruct H as [H|H]].
+    + left. destruct (K1 H) as [-> ->]. apply Seeded_app. exact H.
+    + left. apply K2. destruct o; try contradiction. destruct var; [|contradiction].
+      destruct H as [-> H]. auto.
+    + right. rewrite K3. exact H.
+Qed.
+
+Lemma Inv_init x j : Inv x j [] [] [] [] None None [].
+Proof.
+  unfold Inv, S_, good. cbn. repeat split; auto; try constructor; try discriminate; try lia.
+Qed.
+
+Lemma sumn_onehot_r n k (h : nat -> R) : k < n ->
+  sumn ops n (fun i => h i [*] nth i (onehot ops n k) rO) = h k.
+Proof.
+  intros Hk. rewrite <- (sumn_onehot ops Rth n k h Hk). apply sumn_ext. intros i _. ring.
+Qed.
+
+Lemma Forall2_nth_error2 {A B} (P : A -> B -> Prop) l1 l2 k a b :
+  Forall2 P l1 l2 -> nth_error l1 k = Some a -> nth_error l2 k = Some b -> P a b.
+Proof.
+  intros H Ha Hb. destruct (Forall2_nth_error P l1 l2 k a H Ha) as [b' [Hb' Hp]]. congruence.
+Qed.
+
+Lemma values_agree t1 s1 t2 s2 h : forall (data : list (R * nat)) rs ds,
+  Forall2 (rec_ok t1 s1) (map (mk h) data) ds -> Forall2 (rec_ok t2 s2) rs ds ->
+  map fst data = map (@r_num R) rs.
+Proof.
+  induction data as [|q r IH]; intros rs ds H1 H2.
+  - inversion H1; subst. inversion H2; subst. reflexivity.
+  - cbn [map] in H1. inversion H1 as [|? d ? dr Ha Hb]; subst.
+    inversion H2 as [|r0 ? rr ? Hc Hd]; subst. cbn [map]. f_equal; [|eapply IH; eauto].
+    destruct Ha as [Q1 _], Hc as [Q2 _]. cbn in Q1. congruence.
+Qed.
+
+(* MAIN.  For a container program and its element-by-element version that both complete:
+   same shapes and values, and for every input element (x, j), every output element (o, i)
+   that is a variable on both tapes: the derivative read off the container tape equals the
+   derivative read off the Record tape. *)
+Theorem elementwise_equiv prog m m' ct cenv et eenv :
+  forallb supported prog = true ->
+  crun ops ([], []) 0 prog = Some (m, Ok (ct, cenv)) ->
+  erun ops ([], []) 0 prog = Some (m', Ok (et, eenv)) ->
+  (forall o c e, nth_error cenv o = Some c -> nth_error eenv o = Some e ->
+     c_tensor c = e_tensor e /\ c_shape c = e_shape e /\
+     map fst (c_data c) = map (@r_num R) (e_recs e)) /\
+  (forall x j o i cx ex vx p rq c e v po ro h h',
+     is_input x j 0 prog ->
+     nth_error cenv x = Some cx -> nth_error eenv x = Some ex ->
+     nth_error (c_data cx) j = Some (vx, p) -> nth_error (e_recs ex) j = Some rq ->
+     nth_error cenv o = Some c -> nth_error eenv o = Some e ->
+     nth_error (c_data c) i = Some (v, po) -> c_hist c = Some h ->
+     nth_error (e_recs e) i = Some ro -> r_hist ro = Some h' ->
+     nth p (sweep ops ct po) rO = nth (r_idx rq) (sweep ops et (r_idx ro)) rO).
+Proof.
+  intros Hs Hc He. split.
+  - intros o c e Ho1 Ho2.
+    destruct (run_sim 0 0 prog _ _ _ _ _ _ _ _ _ _ _ _ _ _ _ Hs (Inv_init 0 0) Hc He) as (c2 & e2 & f2 & I & _).
+    destruct (Inv_get _ _ _ _ _ _ _ _ _ _ _ I Ho1) as (e' & ds & Ee & Hcok & Heok & Hl).
+    assert (e' = e) by congruence. subst e'. destruct Hl as [L1 L2]. split; [exact L1|]. split; [exact L2|].
+    unfold cont_ok, eok, recs_ok in *. rewrite as_records_mk in Hcok.
+    eapply values_agree; eauto.
+  - intros x j o i cx ex vx p rq c e v po ro h h' Hin Hx1 Hx2 Hj1 Hj2 Ho1 Ho2 Hi1 Hh Hi2 Hh'.
+    destruct (run_sim x j prog _ _ _ _ _ _ _ _ _ _ _ _ _ _ _ Hs (Inv_init x j) Hc He) as (c2 & e2 & f2 & I & K).
+    destruct (K (or_intror Hin)) as (cx' & ex' & p' & q' & Q1 & Q2 & Q3 & Q4 & -> & ->).
+    assert (cx' = cx) by congruence. assert (ex' = ex) by congruence. subst cx' ex'.
+    rewrite nth_error_map, Hj1 in Q3. rewrite nth_error_map, Hj2 in Q4. cbn in Q3, Q4.
+    inversion Q3; subst p'. inversion Q4; subst q'. clear Q3 Q4.
+    destruct (Inv_get _ _ _ _ _ _ _ _ _ _ _ I Ho1) as (e' & ds & Ee & Hcok & Heok & _).
+    assert (e' = e) by congruence. subst e'.
+    pose proof I as (G1 & _ & B1 & G2 & _ & B2 & _).
+    unfold cont_ok, eok, recs_ok in *. rewrite as_records_mk in Hcok.
+    assert (Hi1' : nth_error (map (mk (c_hist c)) (c_data c)) i = Some (mkRec v (Some h) po)).
+    { rewrite nth_error_map, Hi1, Hh. reflexivity. }
+    destruct (Forall2_nth_error _ _ _ _ _ Hcok Hi1') as [d [Hd [_ Hc1]]].
+    pose proof (Forall2_nth_error2 _ _ _ _ _ _ Heok Hi2 Hd) as [_ He1].
+    cbn [r_hist r_idx] in Hc1. rewrite Hh' in He1. destruct Hc1 as [Pc Tc], He1 as [Pe Te].
+    pose proof (sweep_is_tangent ops Rth ct (sd_of (S_ ct (Some p))) po (proj2 G1) Pc) as W1.
+    pose proof (sweep_is_tangent ops Rth et (sd_of (S_ et (Some (r_idx rq)))) (r_idx ro) (proj2 G2) Pe) as W2.
+    unfold tan in Tc, Te. rewrite Tc in W1. rewrite Te in W2.
+    unfold sd_of, S_ in W1, W2. cbn [seeds_of] in W1, W2.
+    rewrite sumn_onehot_r in W1 by (apply B1; reflexivity).
+    rewrite sumn_onehot_r in W2 by (apply B2; reflexivity).
+    congruence.
+Qed.
+
+
+(* ------------------------------------------------------------------ the constant side is inert
+   The index stored next to a constant (history None) is never read: replacing the indexes of a
+   constants container by anything else changes neither the tape nor the result of a binary
+   operation or of a matrix multiplication.  (Before the repair of record_scalar_product the
+   constant side's index 0 was recorded as a parent.) *)
+Definition same_numbers (y y' : cont) : Prop :=
+  c_hist y = None /\ c_hist y' = None /\ c_tensor y' = c_tensor y /\ c_shape y' = c_shape y /\
+  map fst (c_data y') = map fst (c_data y).
+
+Lemma x_loop_inert f : forall xs ys ys' t, map fst ys' = map fst ys ->
+  binary_x_loop ops t f xs ys' = binary_x_loop ops t f xs ys.
+Proof.
+  induction xs as [|[x p] xr IH]; intros [|[y q] yr] [|[y' q'] yr'] t H; cbn in *; try discriminate; try reflexivity.
+  inversion H; subst. rewrite (IH yr yr') by assumption. reflexivity.
+Qed.
+
+Lemma y_loop_inert f : forall xs xs' ys t, map fst xs' = map fst xs ->
+  binary_y_loop ops t f xs' ys = binary_y_loop ops t f xs ys.
+Proof.
+  induction xs as [|[x p] xr IH]; intros [|[x' p'] xr'] [|[y q] yr] t H; cbn in *; try discriminate; try reflexivity.
+  inversion H; subst. rewrite (IH xr' yr) by assumption. reflexivity.
+Qed.
+
+Lemma none_map_inert_r (f : binfn R) : forall (xs ys ys' : list (R * nat)), map fst ys' = map fst ys ->
+  map (fun p => (bf f (fst (fst p)) (fst (snd p)), 0)) (combine xs ys') =
+  map (fun p => (bf f (fst (fst p)) (fst (snd p)), 0)) (combine xs ys).
+Proof.
+  induction xs as [|x xr IH]; intros [|y yr] [|y' yr'] H; cbn in *; try discriminate; try reflexivity.
+  inversion H. rewrite (IH yr yr') by assumption. congruence.
+Qed.
+
+Lemma none_map_inert_l (f : binfn R) : forall (xs xs' ys : list (R * nat)), map fst xs' = map fst xs ->
+  map (fun p => (bf f (fst (fst p)) (fst (snd p)), 0)) (combine xs' ys) =
+  map (fun p => (bf f (fst (fst p)) (fst (snd p)), 0)) (combine xs ys).
+Proof.
+  induction xs as [|x xr IH]; intros [|x' xr'] [|y yr] H; cbn in *; try discriminate; try reflexivity.
+  inversion H. rewrite (IH xr' yr) by assumption. congruence.
+Qed.
+
+Theorem constant_side_inert t f x y y' : same_numbers y y' ->
+  c_binary ops t f x y' = c_binary ops t f x y /\
+  (c_tensor x = c_tensor y -> c_shape x = c_shape y ->
+   omap (fun p => (fst p, c_data (snd p), c_hist (snd p))) (c_binary ops t f y' x) =
+   omap (fun p => (fst p, c_data (snd p), c_hist (snd p))) (c_binary ops t f y x)).
+Proof.
+  intros (Hy & Hy' & Ht & Hs & Hd). split.
+  - unfold c_binary. rewrite Hy, Hy', Hs.
+    destruct (negb _); [reflexivity|]. destruct (c_hist x).
+    + rewrite (x_loop_inert f _ _ _ t Hd). reflexivity.
+    + rewrite (none_map_inert_r f _ _ _ Hd). reflexivity.
+  - intros Tx Sx. unfold c_binary. rewrite Hy, Hy', Hs, Ht.
+    destruct (negb _); [reflexivity|]. destruct (c_hist x).
+    + rewrite (y_loop_inert f _ _ _ t Hd).
+      destruct (binary_y_loop ops t f (c_data y) (c_data x)). reflexivity.
+    + rewrite (none_map_inert_l f _ _ _ Hd). reflexivity.
+Qed.
+
 End C06.
+
+(* a ring instance for the non-vacuity examples (only + - * matter to the theorems) *)
+Definition Zops6 : numops Z := {|
+  nzero := 0%Z; none_ := 1%Z; nadd := Z.add; nsub := Z.sub; nmul := Z.mul; ndiv := Z.div; nneg := Z.opp;
+  neqb := Z.eqb; nltb := Z.ltb; nleb := Z.leb;
+  nsqrt := fun x => x; nexp := fun x => x; nln := fun x => x; nsin := fun x => x; ncos := fun x => x;
+  npow := fun x _ => x; npi := 3%Z; nof_N := fun n => Some (Z.of_N n); nenc := SZ; ndec := dZ |}.
+Lemma Zops6_ring : ring_theory (nzero Zops6) (none_ Zops6) (nadd Zops6) (nmul Zops6) (nsub Zops6) (nneg Zops6) (@eq Z).
+Proof. exact InitialRing.Zth. Qed.
